@@ -17,8 +17,9 @@ import traceback
 from harness import tracecheck
 
 VERIF = tracecheck.VERIF
-EVIDENCE = os.path.join(VERIF, 'evidence')
-REPLAY = os.path.join(VERIF, 'replay')
+# the two overrides exist for runs against scratch trees (seeded changes), which must not replace the evidence
+EVIDENCE = os.environ.get('VERIF_EVIDENCE_DIR') or os.path.join(VERIF, 'evidence')
+REPLAY = os.environ.get('VERIF_REPLAY_DIR') or os.path.join(VERIF, 'replay')
 KF_FILE = os.path.join(VERIF, 'known_findings.json')
 
 
